@@ -8,7 +8,7 @@ from . import bv, facts
 from .bv import ZERO, ONE
 from .interp import Interp, Undecided, Diverge, Agg, Enum, Ptr
 from .models import M as MODELS
-from .check_threefish import engine_guard, find, bytes_cell, cell_bytes
+from .check_threefish import engine_guard, find, bytes_cell, cell_bytes, only_beyond_format_limit
 from .check_blake import by_name, with_field
 from spec import jh as J
 
@@ -294,7 +294,8 @@ def c06_finalize(report, cfg, only=None, positions=None):
                 _, ocell = bytes_cell(it, "out", nout)
                 it.call_instance(fin, [Ptr(scell, ()), Ptr(ocell, ())])
                 for a in it.asserts:
-                    if not any(re.search(rx, a["inst"]) and a["kind"] == k for rx, k, _ in ALLOWED_ASSERTS):
+                    if not any(re.search(rx, a["inst"]) and a["kind"] == k for rx, k, _ in ALLOWED_ASSERTS) \
+                            and not (a["kind"].startswith("overflow") and only_beyond_format_limit(a, ("datalen",))):
                         report.violated("R6.4", ikey + ":" + a["kind"], "%s assertion in %s can fail for some inputs" % (a["kind"], facts.short(a["inst"], 80)))
                         return
                 if it.panics:
